@@ -88,6 +88,15 @@ def instance_pool(r, n=6):
     return {'base': base, 'images': out, 'segs': segs, 'rts': rts, 'series': [f'{base}.1', f'{base}.4']}
 
 
+def _measurement_extras(r, pool):
+    """optional parts of a single measurement (children of the NUM item)"""
+    if r.random() < 0.6:
+        return {}
+    return {'qualifier': r.choice([('QL1', '99VERIF'), None]), 'derivation': r.choice([('DV1', '99VERIF'), None]),
+            'method': r.choice([('MT1', '99VERIF'), None]), 'sites': r.sample(SITES, r.choice([0, 1, 2])),
+            'images': [r.choice(pool['images']) for _ in range(r.choice([0, 0, 1, 2]))]}
+
+
 def group_params(r, pool, idx, kinds=('planar', 'volumetric', 'image')):
     kind = r.choice(kinds)
     ctx = {'session': ('session %d' % idx) if r.random() < 0.2 else None,
@@ -100,7 +109,8 @@ def group_params(r, pool, idx, kinds=('planar', 'volumetric', 'image')):
          'finding_type': r.choice(FINDINGS + [None]), 'finding_category': r.choice(CATEGORIES + [None, None]),
          'finding_sites': r.sample(SITES, r.choice([0, 0, 1, 1, 2])), 'method': r.choice(METHODS_ + [None, None]),
          'lateralities': [],
-         'measurements': [(r.choice(MEAS), r.randint(-40, 40) / 4, ('mm', 'UCUM')) for _ in range(r.choice([0, 1, 1, 2]))],
+         'measurements': [(r.choice(MEAS), r.randint(-40, 40) / 4, ('mm', 'UCUM'), _measurement_extras(r, pool))
+                          for _ in range(r.choice([0, 1, 1, 2]))],
          'evaluations': [(r.choice(EVALS), r.choice(ANSWERS)) for _ in range(r.choice([0, 0, 1, 2]))],
          'geometric_purpose': None, 'template': r.random() < 0.6, 'context': ctx}
     g['lateralities'] = [r.choice(LATERALITIES + [None, None]) for _ in g['finding_sites']]
@@ -168,7 +178,14 @@ def build_group(r, g):
         referenced_real_world_value_map=sr.RealWorldValueMap(g['context']['rwvm']) if g['context']['rwvm'] else None,
         finding_sites=[sr.FindingSite(anatomic_location=cc(s), laterality=cc(lat) if lat else None)
                        for s, lat in zip(g['finding_sites'], g['lateralities'])] or None,
-        measurements=[sr.Measurement(name=cc(n), value=v, unit=cc(u)) for n, v, u in g['measurements']] or None,
+        measurements=[sr.Measurement(
+            name=cc(n), value=v, unit=cc(u),
+            qualifier=cc(x['qualifier']) if x.get('qualifier') else None,
+            derivation=cc(x['derivation']) if x.get('derivation') else None,
+            method=cc(x['method']) if x.get('method') else None,
+            finding_sites=[sr.FindingSite(anatomic_location=cc(t)) for t in x.get('sites', [])] or None,
+            referenced_images=[sr.SourceImageForMeasurement(a, b) for a, b in x.get('images', [])] or None)
+            for n, v, u, x in g['measurements']] or None,
         qualitative_evaluations=[sr.QualitativeEvaluation(name=cc(n), value=cc(v)) for n, v in g['evaluations']] or None,
     )
     ref = g['ref']
@@ -277,6 +294,8 @@ def all_references(g):
     out = list(referenced_instances(g))
     if (g.get('context') or {}).get('rwvm'):
         out.append((RWV_CLASS, g['context']['rwvm']))
+    for m in g['measurements']:
+        out += list(m[3].get('images', []))
     if g['ref']['type'] == 'surface':
         out += list(g['ref']['sources'] or [])
     return out
@@ -333,7 +352,7 @@ def items_of(g):
     for s in g['finding_sites']:
         out.append(it('363698007|SCT', 'CODE', 'HAS CONCEPT MOD', code(s)))
     out += ctx_b
-    for n, v, u in g['measurements']:
+    for n, v, u, _x in g['measurements']:
         out.append(it(code(n), 'NUM', 'CONTAINS', str(v)))
     for n, v in g['evaluations']:
         out.append(it(code(n), 'CODE', 'CONTAINS', code(v)))
